@@ -185,6 +185,22 @@ func checkC02(ctx *Ctx, r *Report, tier string) {
 			}
 			want := sp.spec()
 			ok := equalRat(stripConvF(t), stripConvF(want))
+			if !ok && strings.HasPrefix(sp.ctor, "Elongate") {
+				// the vector clamp written out per coordinate with the package's scalar Clamp -
+				// accepted when that function is the three-way clamp (decided on its closed form)
+				if scalarClampIsClamp(ctx) {
+					dim := 3
+					if strings.HasSuffix(sp.ctor, "2D") {
+						dim = 2
+					}
+					var args []*Term
+					for _, c := range []string{"X", "Y", "Z"}[:dim] {
+						a := Call("math.Abs", A("h."+c))
+						args = append(args, Sub(A("p."+c), Call(modPath+"/sdf.Clamp", A("p."+c), Mul(KR(big.NewRat(-1, 2)), a), Mul(KR(big.NewRat(1, 2)), a))))
+					}
+					ok = equalRat(stripConvF(t), stripConvF(opEval("sdf", args...)))
+				}
+			}
 			r.check("M-spec", sp.ctor, fn.Pos(), ok, sp.note+"; composite = "+shortKey(t.Key(), 300)+func() string {
 				if ok {
 					return ""
@@ -1789,4 +1805,26 @@ func checkRotateToVector(ctx *Ctx, r *Report) {
 	}
 	r.check("M13", "RotateToVector|directions-of-any-length", fn.Pos(), bad == "" && n > 0, fmt.Sprintf("%d pairs (opposite, same and generic directions, different lengths): finite, and the image of â is b̂ except for the documented choice at opposite directions;%s", n, bad))
 	r.floor("M13", 1)
+}
+
+// scalarClampIsClamp: sdf.Clamp(x, a, b) is a below a, b above b and x in between.
+func scalarClampIsClamp(ctx *Ctx) bool {
+	fn := ctx.ssaFunc("sdf", "Clamp")
+	if fn == nil || len(fn.Params) != 3 {
+		return false
+	}
+	ev := newEval(ctx)
+	res, _ := ev.evalRoot(fn)
+	t, _ := res.(*Term)
+	if t == nil {
+		return false
+	}
+	x, a, b := paramName(fn, 0), paramName(fn, 1), paramName(fn, 2)
+	for _, c := range [][4]float64{{-3, -1, 2, -1}, {5, -1, 2, 2}, {0.5, -1, 2, 0.5}, {-1, -1, 2, -1}, {2, -1, 2, 2}} {
+		got, ok := evalFloat(t, map[string]float64{x: c[0], a: c[1], b: c[2]})
+		if !ok || got != c[3] {
+			return false
+		}
+	}
+	return true
 }
